@@ -15,6 +15,7 @@ def plan(tier, seed):
         args = ["--cases", cases, "--booksrc", booksrc]
         if i == 0:
             args += ["--builtin", 1]           # the built-in book walk is deterministic: once
+            args += ["--huge", 1 if quick else 3]  # sparse book files > 2 GiB (0.1 s each, no real disk)
         shards.append(dict(bin=("asan", "c18"), args=args))
     runs = 60000 if quick else 1200000   # ~2.1k exec/s per core
     nf = 2 if quick else 8
@@ -47,7 +48,7 @@ def plan(tier, seed):
                 "damage within 32 bytes of the matching entries": 1500 if quick else 75000,
                 "file: truncated": 1500 if quick else 75000, "file: unsorted": 800 if quick else 40000,
                 "file: corrupt": 1500 if quick else 75000, "file: missing": 200 if quick else 10000,
-                "file: directory": 200 if quick else 10000, "file: empty": 100 if quick else 5000,
+                "file: directory": 200 if quick else 10000, "file: empty": 100 if quick else 5000, "file: larger than 2 GiB (sparse)": 2 if quick else 6,
                 "built-in book position": 2000,
                 "fuzz accepted c18_polyglot": int(0.05 * runs * nf)},
         assumptions=[
@@ -56,7 +57,7 @@ def plan(tier, seed):
             "a well-formed file keeps total/min positive weight <= 51 under the probed key, so 5000 draws miss a stored move with probability < 1e-43",
             "zero weight means 'never play' (polyglot format); an entry that is not a legal move makes the whole probe return no move (texel's documented hash-collision rule) - the oracle only requires empty-or-legal there",
             "Book seeds its generator from the clock: the harness installs a constant clock (verif::clockNanosHook)",
-            "files > 2 GiB (int overflow in entNo*16) are not generated",
+            "book files up to 8 GiB are covered by sparse files (2/4/8 GiB + a few entries); files >= 32 GiB (entry count does not fit texel's int) are outside the domain",
             "ASan+UBSan build, assert() enabled",
         ],
     )
